@@ -222,7 +222,10 @@ class Check:
             cmd += extra
         cmd.append(module + ".tla")
         e = dict(os.environ)
-        e.setdefault("JAVA_TOOL_OPTIONS", "-Xss256m")
+        jtmp = os.path.join(self.scratch, "jtmp")
+        os.makedirs(jtmp, exist_ok=True)
+        # TLC unpacks its standard modules into java.io.tmpdir and never removes them: keep that inside the scratch directory
+        e["JAVA_TOOL_OPTIONS"] = (e.get("JAVA_TOOL_OPTIONS", "-Xss256m") + " -Djava.io.tmpdir=" + jtmp).strip()
         if env:
             e.update({k: str(v) for k, v in env.items()})
         t0 = time.time()
